@@ -574,6 +574,19 @@ pub fn generate(seed: u64, cases: usize, max_samples: usize, focus: &str, out: &
             let p8 = Pcm { channels: 1, bps: 8, rate: 44100, data: d, family: "tone_burst_lowbits" };
             out(run_record("corpus-c13-param-above-width", &c8, &p8, "st", "mem", true));
         }
+        // a fixed-predictor candidate within a few bytes of the verbatim size whose PARTITION order (0: odd block length)
+        // is below its PREDICTOR order (4): cubic polynomial + one impulse, 24-bit, Rice parameter 0. Any term of the
+        // reported size that mixes the two orders up decides the comparison with verbatim wrongly here
+        for m in [170i32, 176, 179, 180, 181, 182, 183, 184, 186, 190] {
+            let mut c9 = Cfg::default();
+            c9.block_size = 255;
+            c9.use_lpc = false;
+            c9.max_parameter = 0;
+            let mut d: Vec<i32> = (0..255i64).map(|t| (t * (t - 1) * (t - 2) / 6) as i32).collect();
+            d[128] += m;
+            let p9 = Pcm { channels: 1, bps: 24, rate: 48000, data: d, family: "cubic_impulse" };
+            out(run_record(&format!("corpus-c09-odd-block-{m}"), &c9, &p9, "st", "mem", true));
+        }
         // unary runs longer than 2^16 that are EMITTED (still cheaper than verbatim): 24-bit clicks in silence, Rice parameter 0
         // (quotients 80000 and 139999): every reader of the unary code must take them
         {
